@@ -378,20 +378,83 @@ pub fn show_ordered_aig<L: flussab_aiger::Lit>(a: &flussab_aiger::aig::OrderedAi
 }
 
 // ------------------------------------------------------------------ BTOR2
+/// Canonical rendering of a BTOR2 line: every field, free-form bytes in hex.
+///   c:<hex>                                   comment line
+///   n:<id>:<variant>:<symbol>:<comment>       node; symbol/comment: `~` (None) or `=<hex>`
+pub fn show_btor2_line(l: &flussab_btor2::btor2::Line) -> String {
+    use flussab_btor2::btor2::*;
+    fn opt<T: std::ops::Deref<Target = [u8]> + ?Sized>(o: Option<&T>) -> String {
+        match o { None => "~".to_string(), Some(b) => format!("={}", hex(b)) }
+    }
+    let id = |n: NodeId| n.0.get().to_string();
+    match l {
+        Line::Comment(c) => format!("c:{}", hex(c)),
+        Line::Node(n) => {
+            let v = match &n.variant {
+                NodeVariant::Sort(Sort::BitVec(w)) => format!("sort.bitvec.{}", w.get()),
+                NodeVariant::Sort(Sort::Array(Array(d, c))) => format!("sort.array.{}.{}", id(*d), id(*c)),
+                NodeVariant::Value(Value { sort, variant }) => {
+                    let vv = match variant {
+                        ValueVariant::Const(Const::Binary(c)) => format!("const.b.{}", hex(c.to_string().as_bytes())),
+                        ValueVariant::Const(Const::Decimal(c)) => format!("const.d.{}", hex(c.to_string().as_bytes())),
+                        ValueVariant::Const(Const::Hex(c)) => format!("const.h.{}", hex(c.to_string().as_bytes())),
+                        ValueVariant::Const(Const::One) => "one".into(),
+                        ValueVariant::Const(Const::Ones) => "ones".into(),
+                        ValueVariant::Const(Const::Zero) => "zero".into(),
+                        ValueVariant::Input => "input".into(),
+                        ValueVariant::State => "state".into(),
+                        ValueVariant::Op(Op::Unary(op, a0)) => format!("op.{}.{}", format!("{:?}", op).replace(", ", ","), id(*a0)),
+                        ValueVariant::Op(Op::Binary(op, [a0, a1])) => format!("op.{:?}.{}.{}", op, id(*a0), id(*a1)),
+                        ValueVariant::Op(Op::Ternary(op, [a0, a1, a2])) => format!("op.{:?}.{}.{}.{}", op, id(*a0), id(*a1), id(*a2)),
+                    };
+                    format!("value.{}.{}", id(*sort), vv)
+                }
+                NodeVariant::Assignment(a) => format!("assign.{:?}.{}.{}.{}", a.kind, id(a.sort), id(a.state), id(a.value)),
+                NodeVariant::Output(Output::SingleValue(o)) => format!("output.{:?}.{}", o.kind, id(o.value)),
+                NodeVariant::Output(Output::Justice(nodes)) => format!("justice.{}", lits(&nodes.iter().map(|x| x.0.get()).collect::<Vec<_>>())),
+            };
+            format!("n:{}:{}:{}:{}", id(n.id), v, opt(n.symbol), opt(n.comment))
+        }
+    }
+}
+
+/// flags 'w': each item is the hex of what `Line::write_into` writes for the parsed line (writer correspondence)
 fn run_btor2(s: &Setup, t: &mut Trace, stats: &Rc<RefCell<Stats>>, src: Src) {
     use flussab_btor2::{Config, Parser};
     let p = construct!(Parser, src, s.ctor.as_str(), Config::default(), s.chunk);
     let mut p = match p { Ok(p) => p, Err(e) => { t.fin = show_err_btor2(&e); return; } };
+    let written = s.flags.contains('w');
     loop {
         match p.next_line() {
             Ok(Some(l)) => {
-                t.items.push(format!("{:?}", l).replace(';', "\\x3b"));
+                t.items.push(if written { hex(&write_to_vec(|w| l.write_into(w))) } else { show_btor2_line(&l) });
                 t.calls_at_item.push(stats.borrow().effective_calls);
             }
             Ok(None) => { t.fin = "ok".into(); return; }
             Err(e) => { t.fin = show_err_btor2(&e); return; }
         }
         if t.items.len() > 2_000_000 { t.fin = "RUNAWAY".into(); return; }
+    }
+}
+
+/// pa b2c <b|d|h> <hex of a UTF-8 string>: the validating constructors of the constants; on success the
+/// constant is written as the line `2 const* 1 <constant>` and the written bytes are shown
+pub fn run_btor2_const(toks: &[&str]) -> String {
+    use flussab_btor2::btor2::*;
+    let txt = String::from_utf8(unhex(toks[1])).unwrap();
+    let show = |e: InvalidConstError| match e { InvalidConstError::Empty => "empty".to_string(), InvalidConstError::InvalidDigit(c) => format!("invalid({})", c as u32) };
+    let c: Result<Const, InvalidConstError> = match toks[0] {
+        "b" => BinaryConst::try_from(txt.as_str()).map(Const::Binary),
+        "d" => DecimalConst::try_from(txt.as_str()).map(Const::Decimal),
+        "h" => HexConst::try_from(txt.as_str()).map(Const::Hex),
+        _ => panic!("bad const kind"),
+    };
+    match c {
+        Err(e) => show(e),
+        Ok(c) => {
+            let line = Line::Node(Node { id: NodeId::new(2), variant: NodeVariant::Value(Value { sort: NodeId::new(1), variant: ValueVariant::Const(c) }), symbol: None, comment: None });
+            format!("ok {}", hex(&write_to_vec(|w| line.write_into(w))))
+        }
     }
 }
 
@@ -421,6 +484,9 @@ pub fn run_setup(s: &Setup) -> (Trace, Rc<RefCell<Stats>>) {
 
 /// stream "pa": the plain trace (used for model correspondence).
 pub fn run(toks: &[&str]) -> String {
+    if toks.first() == Some(&"b2c") {
+        return run_btor2_const(&toks[1..]);
+    }
     let s = Setup::parse(toks);
     let (t, stats) = run_setup(&s);
     format!("{} | calls={}", t.show(), stats.borrow().calls)
@@ -504,11 +570,41 @@ fn one_shot(s: &Setup) -> Setup {
             chunk: 16384, ctor: "r".into() }
 }
 
+/// The stream of `s` (the bytes its source delivers before its terminal event, and that event) in one piece.
+/// Without a Fail / Eof event in the schedule this is `one_shot`; with one (the pa stream's BTOR2 cases script
+/// failing and prematurely ending sources) the one-shot source delivers the same prefix and then the same event.
+fn one_shot_same_stream(s: &Setup) -> Setup {
+    let pre = if s.ctor == "f" { s.pre.min(s.data.len()) } else { 0 };
+    let mut left = s.data.len() - pre;
+    let mut term: Option<Ev> = None;
+    for e in &s.events {
+        match e {
+            Ev::Deliver(k) => {
+                if *k == 0 || left == 0 || *k > left { left = 0; term = Some(Ev::Eof); break; }
+                left -= *k;
+            }
+            Ev::Interrupt => {}
+            Ev::Fail(id) => { term = Some(Ev::Fail(*id)); break; }
+            Ev::Eof => { term = Some(Ev::Eof); break; }
+            Ev::Lie(_) => return one_shot(s),
+        }
+    }
+    let n = s.data.len() - left;
+    let mut o = one_shot(s);
+    match term {
+        Some(Ev::Fail(id)) => { o.events = if n > 0 { vec![Ev::Deliver(n), Ev::Fail(id)] } else { vec![Ev::Fail(id)] }; }
+        Some(Ev::Eof) => { o.data.truncate(n); }
+        _ => {}
+    }
+    o
+}
+
 /// o_c01: the chunked / interrupted / small-chunk-size run returns exactly what the one-shot run returns.
 /// Also checks C08's bounds clause and C05's no-panic clause on both runs.
 pub fn oracle_c01(toks: &[&str]) -> String {
     let s = Setup::parse(toks);
-    let (a, _) = run_setup(&one_shot(&s));
+    let whole = one_shot_same_stream(&s);
+    let (a, _) = run_setup(&whole);
     let (b, st) = run_setup(&s);
     if a.fin.starts_with("PANIC") || b.fin.starts_with("PANIC") {
         return format!("FAIL panic: one-shot {} / chunked {}", a.fin, b.fin);
@@ -518,7 +614,7 @@ pub fn oracle_c01(toks: &[&str]) -> String {
         return format!("FAIL one-shot and re-chunked runs differ at item {k}: one-shot [{} => {}] chunked [{} => {}]",
                        a.items.get(k).cloned().unwrap_or_default(), a.fin, b.items.get(k).cloned().unwrap_or_default(), b.fin);
     }
-    if let Some(w) = line_col_ok_for(&s.parser, &s.data, &b.fin) {
+    if let Some(w) = line_col_ok_for(&s.parser, &whole.data, &b.fin) {
         return format!("FAIL {w} (final {})", b.fin);
     }
     if st.borrow().calls_after_terminal != 0 {
